@@ -74,9 +74,16 @@ type c11Table struct {
 	rows        []c11Row
 	partitionBy []string
 	part, n     int // n == 0: the whole table
+	groupBy     []string
 }
 
-func (t *c11Table) GetGroupBy() []core.GroupBy   { return []core.GroupBy{} }
+func (t *c11Table) GetGroupBy() []core.GroupBy {
+	out := []core.GroupBy{}
+	for _, g := range t.groupBy {
+		out = append(out, core.NewGroupBy(g, goexpr.Param(g)))
+	}
+	return out
+}
 func (t *c11Table) GetResolution() time.Duration { return c11Res }
 func (t *c11Table) GetAsOf() time.Time           { return c11AsOf }
 func (t *c11Table) GetUntil() time.Time          { return c11Until }
@@ -101,10 +108,22 @@ func (t *c11Table) Iterate(ctx context.Context, onFields core.OnFields, onRow co
 	if err := onFields(t.fields); err != nil {
 		return nil, err
 	}
+	merged := map[string]core.Vals{}
+	var order []bytemap.ByteMap
 	for _, r := range t.rows {
 		key := r.key()
 		if t.n > 0 && c11PartitionOf(key, t.partitionBy, t.n) != t.part {
 			continue
+		}
+		if t.groupBy != nil {
+			// the stored key carries the kept dimensions only (partition membership was decided on the point)
+			m := map[string]interface{}{}
+			for _, g := range t.groupBy {
+				if v := key.Get(g); v != nil {
+					m[g] = v
+				}
+			}
+			key = bytemap.New(m)
 		}
 		ts := c11Epoch.Add(-time.Duration(r.P) * c11Res)
 		vals := make(core.Vals, len(t.fields))
@@ -122,7 +141,26 @@ func (t *c11Table) Iterate(ctx context.Context, onFields core.OnFields, onRow co
 				}
 			}
 		}
+		if t.groupBy != nil {
+			// like the real table, one stored row per kept key: merge
+			ks := string(key)
+			if prev, ok := merged[ks]; ok {
+				for i, f := range t.fields {
+					prev[i] = prev[i].Merge(vals[i], f.Expr, c11Res, time.Time{})
+				}
+			} else {
+				merged[ks] = vals
+				order = append(order, key)
+			}
+			continue
+		}
 		more, err := onRow(key, vals)
+		if err != nil || !more {
+			return nil, err
+		}
+	}
+	for _, key := range order {
+		more, err := onRow(key, merged[string(key)])
 		if err != nil || !more {
 			return nil, err
 		}
@@ -134,6 +172,7 @@ type c11Env struct {
 	rows        []c11Row
 	partitionBy []string
 	n           int
+	groupBy     []string
 }
 
 func (e *c11Env) opts(part, n int) *planner.Opts {
@@ -150,7 +189,7 @@ func (e *c11Env) opts(part, n int) *planner.Opts {
 			if table == "tb" {
 				rows = e.rows[:len(e.rows)/2+1]
 			}
-			return &c11Table{name: table, fields: included, rows: rows, partitionBy: e.partitionBy, part: part, n: n}, nil
+			return &c11Table{name: table, fields: included, rows: rows, partitionBy: e.partitionBy, part: part, n: n, groupBy: e.groupBy}, nil
 		},
 		Now: func(table string) time.Time { return c11Epoch },
 	}
@@ -203,6 +242,9 @@ type c11Case struct {
 	RowSet      int      `json:"row_set"`
 	PartitionBy []string `json:"partition_by"`
 	N           int      `json:"n"`
+	// TableGroupBy: the dimensions the table itself keeps (nil = all): a table that drops dimensions stores one key
+	// on several partitions unless it is partitioned by kept dimensions only
+	TableGroupBy []string `json:"table_group_by,omitempty"`
 }
 
 var c11Selects = []string{"*", "a", "a, b", "a + b AS t", "AVG(a) AS av", "_"}
@@ -320,7 +362,7 @@ func sortedCopy(s []string) []string {
 }
 
 func c11Check(c *fw.Ctx, cs c11Case) {
-	env := &c11Env{rows: c11RowSets()[cs.RowSet], partitionBy: cs.PartitionBy, n: cs.N}
+	env := &c11Env{rows: c11RowSets()[cs.RowSet], partitionBy: cs.PartitionBy, n: cs.N, groupBy: cs.TableGroupBy}
 	c.Eval(1)
 	localPlan, lerr := planner.Plan(cs.SQL, env.opts(0, 0))
 	if lerr != nil {
@@ -345,7 +387,7 @@ func c11Check(c *fw.Ctx, cs c11Case) {
 	lower := strings.ToLower(cs.SQL)
 	fail := func(key, msg string) {
 		c.Disagreement(1)
-		c.Violate("C11", key, fmt.Sprintf("%s\npartitionBy=%v N=%d row set %d\n%s", cs.SQL, cs.PartitionBy, cs.N, cs.RowSet, msg), cs)
+		c.Violate("C11", key, fmt.Sprintf("%s\npartitionBy=%v N=%d row set %d table keeps %v\n%s", cs.SQL, cs.PartitionBy, cs.N, cs.RowSet, cs.TableGroupBy, msg), cs)
 	}
 	if cerr != nil {
 		if local.err != nil {
@@ -619,8 +661,19 @@ func init() {
 						}
 					}
 				}
+				// a table that keeps only x (its keys live on several partitions unless it is partitioned by x); the
+				// mock merges the rows of one kept key like the real table does
+				if !strings.Contains(progs[pi], "FROM (") {
+					for _, pb := range [][]string{nil, {"y"}, {"x"}} {
+						for n := 2; n <= 4; n++ {
+							for rs := 0; rs < 2; rs++ {
+								c11Check(c, c11Case{SQL: progs[pi], RowSet: rs, PartitionBy: pb, N: n, TableGroupBy: []string{"x"}})
+							}
+						}
+					}
+				}
 			}
-			c.R.Bound = fmt.Sprintf("every %d-th of %d programs × 4 partitionings × N 1..6 × 3 row sets", stride, len(progs))
+			c.R.Bound = fmt.Sprintf("every %d-th of %d programs × 4 partitionings × N 1..6 × 3 row sets, plus a table keeping only x × 3 partitionings × N 2..4", stride, len(progs))
 		},
 		Replay: func(c *fw.Ctx, raw json.RawMessage) {
 			var cs c11Case
